@@ -74,7 +74,7 @@ def run(tier, seed, replay=None):
             continue
         for i, e in enumerate(t["events"]):
             if e.get("mode") == "target" and e.get("has_path") and len(e["path"]) >= 3 and e["solver"] in ("dijkstra", "bellman_ford") and e.get("exact"):
-                c = copy.deepcopy(t); c["events"][i]["obj"] += 1; ctl.append((c, "Path.weights_do_not_sum_to_objective"))
+                c = copy.deepcopy(t); c["events"][i]["obj"] += 1; ctl.append((c, "Path.weights_do_not_sum_to_objective|Distance.not_shortest"))   # both are false then
                 c = copy.deepcopy(t); p = c["events"][i]["path"]; p[1], p[-1] = p[-1], p[1]; ctl.append((c, "Path."))
                 c = copy.deepcopy(t); c["events"][i].update(status="INFEASIBLE", has_path=False, path=[]); ctl.append((c, "Infeasible.but_target_reachable"))
                 break
@@ -84,7 +84,7 @@ def run(tier, seed, replay=None):
         raise tlc.MachineryError("no suitable accepted trace for negative controls")
     cv = ck.validate(DIR, "PathsTrace", [c for c, _ in ctl], "negative controls")
     for (c, exp), v in zip(ctl, cv):
-        ck.control(f"corrupted trace rejected ({exp} -> {v['why']})", (not v["ok"]) and exp in v["why"], str(v))
+        ck.control(f"corrupted trace rejected ({exp} -> {v['why']})", (not v["ok"]) and any(x in v["why"] for x in exp.split("|")), str(v))
     # ---- step level: every node dijkstra / astar take off the frontier, with its label, against the label-setting invariant
     st = [r for r in run_tasks("paths", "run_settle", gcases[: 300 if tier == "quick" else 4000], timeout=120) if isinstance(r, dict) and "calls" in r]
     if st:
